@@ -14,7 +14,7 @@ RULE_TEXT = ("CMP driver: seeded traces (on/off-grid decimal and float-grid arri
              "contributes the seed seam, the worker fan-out, the replay-through-WorkloadTrace clause and replay/minimise plumbing. "
              "Non-trivial = every case; distinct = distinct inputs")
 claims = base.prefix_claims("C20.")
-WANT_PROBES = ["on_grid", "in_band_below", "off_grid", "replayed", "ties_out", "delta_zero", "reordered", "samples"]
+WANT_PROBES = ["on_grid", "in_band_below", "off_grid", "replayed", "ties_out", "delta_zero", "reordered", "samples", "samples_compared"]
 RUNNERS = {"snap": toolscmp.run_snap, "jitter": toolscmp.run_jitter, "sample": toolscmp.run_sample}
 
 
